@@ -65,7 +65,7 @@ with open("/verif/seeded/README.md", "w") as f:
             "Each change compiles and passes the 338 tests; each was confirmed with `notes/verify_mutant.sh` "
             "(suite passes with it, demonstration fails with it, demonstration passes without it).  "
             "`first round` = the checks as they were when the change was delivered; `final` = after strengthening.  "
-            "Ids `Cxx-mK` are the first two rounds, `Cxx-r3mK` the third and `Cxx-r4mK` the fourth round (both run against the tree with the `fix:` commits; for round 4 see the note in `notes/strengthened_r4.py` about strengthening done before the first run).  The changes of rounds 1-2 were not re-run against the final checks after round 3/4 (harness lists only grew; three of their patches were rebased onto the repaired tree).\n\n"
+            "Ids `Cxx-mK` are the first two rounds, `Cxx-r3mK` the third and `Cxx-r4mK` the fourth round (both run against the tree with the `fix:` commits; for round 4 see the note in `notes/strengthened_r4.py` about strengthening done before the first run).  The 37 changes of rounds 1-2 were re-run against the final checks on 2026-09-24 (three of their patches rebased onto the repaired tree): all 37 are still reported (`checks.regression_on_final_checks` in their meta.json).\n\n"
             "| id | change | needs | first round | final | reported by |\n|---|---|---|---|---|---|\n")
     for m in rows:
         fin = m["checks"]["after_strengthening"]
